@@ -11,4 +11,10 @@ pub mod c09;
 #[cfg(kani)]
 pub mod c04;
 #[cfg(kani)]
+pub mod c16;
+#[cfg(kani)]
+pub mod c08;
+#[cfg(kani)]
+pub mod c06;
+#[cfg(kani)]
 pub mod warmup;
